@@ -19,14 +19,15 @@ structure PodEff (c c2 : Ctl) (ks : List String) : Prop where
   cache : c2.cache = c.cache
   index : c2.index = c.index
   resync : ∀ a k, setContains c.resync a k = true → setContains c2.resync a k = true ∨ k ∈ ks
+  sub : ∀ a k, setContains c2.resync a k = true → setContains c.resync a k = true
 
 theorem PodEff.refl (c : Ctl) : PodEff c c [] :=
-  ⟨rfl, rfl, rfl, rfl, rfl, rfl, rfl, fun _ _ h => Or.inl h⟩
+  ⟨rfl, rfl, rfl, rfl, rfl, rfl, rfl, fun _ _ h => Or.inl h, fun _ _ h => h⟩
 
 theorem PodEff.trans {c c2 c3 : Ctl} {ks ks' : List String} (h1 : PodEff c c2 ks) (h2 : PodEff c2 c3 ks') :
     PodEff c c3 (ks ++ ks') := by
   refine ⟨h2.slices.trans h1.slices, h2.svcs.trans h1.svcs, h2.pods.trans h1.pods, h2.nodes.trans h1.nodes,
-    h2.smap.trans h1.smap, h2.cache.trans h1.cache, h2.index.trans h1.index, ?_⟩
+    h2.smap.trans h1.smap, h2.cache.trans h1.cache, h2.index.trans h1.index, ?_, fun a k h => h1.sub a k (h2.sub a k h)⟩
   intro a k h
   cases h1.resync a k h with
   | inl h =>
@@ -47,15 +48,29 @@ theorem setContains_aerase (m : List (String × List String)) (ip a k : String) 
 theorem takeWaiting_eff (c : Ctl) (ip : String) :
     ∃ ks, (takeWaiting c ip).2 = ks.map Ev.replay ∧ PodEff c (takeWaiting c ip).1 ks ∧
       (takeWaiting c ip).1.byIP = c.byIP ∧ (takeWaiting c ip).1.ipBy = c.ipBy ∧
-      (∀ k, setContains c.resync ip k = true → k ∈ ks) := by
+      (∀ k, setContains c.resync ip k = true → k ∈ ks) ∧
+      (∀ k, setContains (takeWaiting c ip).1.resync ip k = false) := by
   unfold takeWaiting
   cases hl : alookup ip c.resync with
   | none =>
-    refine ⟨[], rfl, PodEff.refl c, rfl, rfl, ?_⟩
-    intro k hk
-    simp [setContains, hl] at hk
+    refine ⟨[], rfl, PodEff.refl c, rfl, rfl, ?_, ?_⟩
+    · intro k hk
+      simp [setContains, hl] at hk
+    · intro k
+      simp [setContains, hl]
   | some keys =>
-    refine ⟨keys, rfl, ⟨rfl, rfl, rfl, rfl, rfl, rfl, rfl, ?_⟩, rfl, rfl, ?_⟩
+    refine ⟨keys, rfl, ⟨rfl, rfl, rfl, rfl, rfl, rfl, rfl, ?_, ?_⟩, rfl, rfl, ?_, ?_⟩
+    rotate_left
+    · intro a k h
+      have h' : setContains (aerase ip c.resync) a k = true := h
+      rw [setContains_aerase] at h'
+      simp only [Bool.and_eq_true] at h'
+      exact h'.2
+    rotate_left
+    · intro k
+      show setContains (aerase ip c.resync) ip k = false
+      rw [setContains_aerase]
+      simp
     · intro a k h
       show setContains (aerase ip c.resync) a k = true ∨ k ∈ keys
       rw [setContains_aerase]
@@ -73,7 +88,7 @@ theorem takeWaiting_eff (c : Ctl) (ip : String) :
 theorem deleteIP_eff (c : Ctl) (ip key : String) : PodEff c (deleteIP c ip key).1 [] := by
   unfold deleteIP
   split
-  · exact ⟨rfl, rfl, rfl, rfl, rfl, rfl, rfl, fun _ _ h => Or.inl h⟩
+  · exact ⟨rfl, rfl, rfl, rfl, rfl, rfl, rfl, fun _ _ h => Or.inl h, fun _ _ h => h⟩
   · exact PodEff.refl c
 
 /-- `addPod` without a label update -/
@@ -83,8 +98,8 @@ theorem addPod_eff (c : Ctl) (p : Pod) (ip : String) :
   split
   · exact ⟨[], rfl, by simpa using PodEff.refl c⟩
   · have h12 : PodEff c (cachePod c p.key ip) [] :=
-      ⟨rfl, rfl, rfl, rfl, rfl, rfl, rfl, fun _ _ h => Or.inl h⟩
-    obtain ⟨ks, hks, heff, _, _, _⟩ := takeWaiting_eff (cachePod c p.key ip) ip
+      ⟨rfl, rfl, rfl, rfl, rfl, rfl, rfl, fun _ _ h => Or.inl h, fun _ _ h => h⟩
+    obtain ⟨ks, hks, heff, _, _, _, _⟩ := takeWaiting_eff (cachePod c p.key ip) ip
     exact ⟨ks, hks, by simpa using h12.trans heff⟩
 
 /-- `PodCache.onEvent` when the labels did not change: only the pod cache and `needResync` move, and
@@ -92,47 +107,65 @@ theorem addPod_eff (c : Ctl) (p : Pod) (ip : String) :
 theorem podEvent_eff (c : Ctl) (old : Option Pod) (p : Pod) (k : PodEvKind)
     (hlab : ∀ o, old = some o → o.labels = p.labels) :
     ∃ ks, (podEvent c old p k).2 = ks.map Ev.replay ∧ PodEff c (podEvent c old p k).1 ks ∧
-      (k ≠ .del → p.ip ≠ "" → ∀ k', setContains c.resync p.ip k' = true → k' ∈ ks) := by
+      (k ≠ .del → p.ip ≠ "" → ∀ k', setContains c.resync p.ip k' = true → k' ∈ ks) ∧
+      (k ≠ .del → p.ip ≠ "" → ∀ k', setContains (podEvent c old p k).1.resync p.ip k' = false) := by
   unfold podEvent
   simp only []
   by_cases hip : (if p.ip = "" then (alookup p.key c.ipBy).getD "" else p.ip) = ""
   · rw [if_pos hip]
-    refine ⟨[], rfl, PodEff.refl c, ?_⟩
-    intro _ hne
-    simp [hne] at hip
+    refine ⟨[], rfl, PodEff.refl c, ?_, ?_⟩
+    · intro _ hne; simp [hne] at hip
+    · intro _ hne; simp [hne] at hip
   · rw [if_neg hip]
     generalize hipv : (if p.ip = "" then (alookup p.key c.ipBy).getD "" else p.ip) = ip at *
+    have hipeq : p.ip ≠ "" → ip = p.ip := by
+      intro hne; rw [← hipv]; simp [hne]
     cases k with
     | del =>
       simp only [if_true]
-      refine ⟨[], rfl, deleteIP_eff c ip p.key, ?_⟩
-      intro h; exact absurd rfl h
+      exact ⟨[], rfl, deleteIP_eff c ip p.key, fun h => absurd rfl h, fun h => absurd rfl h⟩
     | add =>
-      obtain ⟨ks, hks, heff, _, _, hall⟩ := takeWaiting_eff c ip
+      obtain ⟨ks, hks, heff, _, _, hall, herased⟩ := takeWaiting_eff c ip
       have hall' : p.ip ≠ "" → ∀ k', setContains c.resync p.ip k' = true → k' ∈ ks := by
         intro hne k' hk'
-        have : ip = p.ip := by rw [← hipv]; simp [hne]
-        rw [← this] at hk'
+        rw [← hipeq hne] at hk'
         exact hall k' hk'
       simp only [reduceCtorEq, if_false]
       split
       · obtain ⟨ks2, hks2, heff2⟩ := addPod_eff (takeWaiting c ip).1 p ip
-        refine ⟨ks ++ ks2, by simp [hks, hks2], heff.trans heff2, ?_⟩
-        intro _ hne k' hk'
-        exact List.mem_append_left _ (hall' hne k' hk')
-      · exact ⟨ks, hks, heff, fun _ hne => hall' hne⟩
+        refine ⟨ks ++ ks2, by simp [hks, hks2], heff.trans heff2, ?_, ?_⟩
+        · intro _ hne k' hk'
+          exact List.mem_append_left _ (hall' hne k' hk')
+        · intro _ hne k'
+          rw [← hipeq hne]
+          cases hc : setContains (addPod (takeWaiting c ip).1 p ip false).1.resync ip k' with
+          | false => rfl
+          | true =>
+            have := heff2.sub ip k' hc
+            rw [herased k'] at this
+            cases this
+      · refine ⟨ks, hks, heff, fun _ hne => hall' hne, ?_⟩
+        intro _ hne k'
+        rw [← hipeq hne]
+        exact herased k'
     | upd =>
-      obtain ⟨ks, hks, heff, _, _, hall⟩ := takeWaiting_eff c ip
+      obtain ⟨ks, hks, heff, _, _, hall, herased⟩ := takeWaiting_eff c ip
       have hall' : p.ip ≠ "" → ∀ k', setContains c.resync p.ip k' = true → k' ∈ ks := by
         intro hne k' hk'
-        have : ip = p.ip := by rw [← hipv]; simp [hne]
-        rw [← this] at hk'
+        rw [← hipeq hne] at hk'
         exact hall k' hk'
       simp only [reduceCtorEq, if_false]
       split
-      · refine ⟨ks, hks, ?_, fun _ hne => hall' hne⟩
-        have := heff.trans (deleteIP_eff (takeWaiting c ip).1 ip p.key)
-        simpa using this
+      · have hd := deleteIP_eff (takeWaiting c ip).1 ip p.key
+        refine ⟨ks, hks, by simpa using heff.trans hd, fun _ hne => hall' hne, ?_⟩
+        intro _ hne k'
+        rw [← hipeq hne]
+        cases hc : setContains (deleteIP (takeWaiting c ip).1 ip p.key).1.resync ip k' with
+        | false => rfl
+        | true =>
+          have := hd.sub ip k' hc
+          rw [herased k'] at this
+          cases this
       · have hbf : labelsChanged old p = false := by
           unfold labelsChanged
           cases old with
@@ -140,9 +173,17 @@ theorem podEvent_eff (c : Ctl) (old : Option Pod) (p : Pod) (k : PodEvKind)
           | some o => simp [hlab o rfl]
         rw [hbf]
         obtain ⟨ks2, hks2, heff2⟩ := addPod_eff (takeWaiting c ip).1 p ip
-        refine ⟨ks ++ ks2, by simp [hks, hks2], heff.trans heff2, ?_⟩
-        intro _ hne k' hk'
-        exact List.mem_append_left _ (hall' hne k' hk')
+        refine ⟨ks ++ ks2, by simp [hks, hks2], heff.trans heff2, ?_, ?_⟩
+        · intro _ hne k' hk'
+          exact List.mem_append_left _ (hall' hne k' hk')
+        · intro _ hne k'
+          rw [← hipeq hne]
+          cases hc : setContains (addPod (takeWaiting c ip).1 p ip false).1.resync ip k' with
+          | false => rfl
+          | true =>
+            have := heff2.sub ip k' hc
+            rw [herased k'] at this
+            cases this
 
 /-! ### store lemmas for pods -/
 
@@ -276,7 +317,7 @@ theorem pod_write_inv (c : Ctl) (v : Pod) (c' : Ctl) (hstep : stepC c (.pod v) =
     rw [hfo] at hgood
     simp only [podSig, Prod.mk.injEq] at hgood
     exact hgood.2.2.1
-  obtain ⟨ks, hR, heff, htake⟩ := podEvent_eff c1 old v kind hlab
+  obtain ⟨ks, hR, heff, htake, _⟩ := podEvent_eff c1 old v kind hlab
   have hrunAll : runAll c1 [podEvOf c v] = (runEvents (podEvent c1 old v kind).1 (ks.map Ev.replay)).1 := by
     show (runEvents (runEvents c1 _).1 (runEvents c1 _).2).1 = _
     rw [hrun]
@@ -398,7 +439,7 @@ theorem pod_delete_inv (c : Ctl) (ns name : String) (c' : Ctl) (hstep : stepC c 
       by_cases h1 : x.ns = tns
       · right; intro h2; exact hne ⟨h1.symm.trans hx.1, h2.symm.trans hx.2⟩
       · left; exact h1
-    obtain ⟨ks, hR, heff, _⟩ := podEvent_eff c1 none o .del (by intro _ h; cases h)
+    obtain ⟨ks, hR, heff, _, _⟩ := podEvent_eff c1 none o .del (by intro _ h; cases h)
     have hrunAll : runAll c1 [Ev.podDel o] = (runEvents (podEvent c1 none o .del).1 (ks.map Ev.replay)).1 := by
       show (runEvents (runEvents c1 _).1 (runEvents c1 _).2).1 = _
       simp only [runEvents, handle, List.append_nil]
